@@ -43,6 +43,12 @@ TARGETS: Dict[str, List[Tuple[str, Any, List[str]]]] = {
         ("jsonpath/path.py", lambda q: "_async" in q or q in ("_achain", "_aintersection"), ["C08"]),
         ("jsonpath/env.py", lambda q: q.endswith("_async"), ["C08"]),
     ],
+    # the synchronous twins: a change on the sync side only must also show up as sync != async
+    "sync": [
+        ("jsonpath/selectors.py", lambda q: q.endswith(".resolve"), ["C08"]),
+        ("jsonpath/filter.py", lambda q: q.endswith(".evaluate"), ["C08"]),
+        ("jsonpath/path.py", lambda q: q in ("JSONPath.finditer", "JSONPath.findall", "CompoundJSONPath.findall", "CompoundJSONPath.finditer"), ["C08"]),
+    ],
     "query": [("jsonpath/fluent_api.py", lambda q: q.startswith("Query.") and not q.startswith(("Query.select", "Query._select")), ["C12"])],
     "patch": [("jsonpath/patch.py", lambda q: True, ["C15"])],
     "cli": [("jsonpath/cli.py", lambda q: q.startswith("handle_") or q == "main", ["C18"])],
